@@ -284,6 +284,7 @@ func genC05Typed(rt *rapid.T) *C05Typed {
 		k1 = pick(rt, "k1", c05TypedKinds)
 	}
 	s.Leaves = []*Val{leaf(k0), leaf(k1)}
+	s.Hidden = rapid.IntRange(0, 3).Draw(rt, "hidden") == 0
 	fc := &fmtConfig{noStar: true, noZeroMinus: true, noW: true, noTp: true, noHugeNumbers: true}
 	s.Dir = fc.genDirective(rt)
 	// (Go syntax names the static types)
